@@ -8,6 +8,7 @@ CONSTANTS
   SpellNames = {}
   EmitTrees = FALSE
   Alpha = "A"
+  Contexts = {}
   MaxLen = 4
   TailLen = 2
   DeepReps = {}
